@@ -1256,9 +1256,72 @@ def failed_file(reason):
             f"def translationFailed : String := \"{r}\"\n\nend EG.Generated.AdaptSrc\n")
 
 
+# ---------------------------------------------------------------------------------------------------------------
+# self test of the SHAPE CHECK: bodies of `fn clear(&mut self, color) -> Result<(), Self::Error>` of a forwarding adapter
+# ---------------------------------------------------------------------------------------------------------------
+# (body, expected (tail, bare) or None = must be refused, fragment of the refusal)
+SHAPE_CASES = [
+    ("self.parent.clear(color)", (True, True), None),
+    ("{ self.parent.clear(color) }", (True, True), None),
+    ("let c = color; self.parent.clear(c)", (True, True), None),
+    ("self.parent.clear(color)?; Ok(())", (False, False), None),
+    ("Ok(self.parent.clear(color)?)", (True, False), None),
+    ("let r = self.parent.clear(color); r", (False, False), None),
+    ("let _ = self.parent.clear(color); Ok(())", (False, False), None),
+    ("self.parent.clear(color).ok(); Ok(())", (False, False), None),
+    ("self.parent.clear(color).map_err(|e| e)", (True, False), None),
+    ("self.parent.clear(color).or(Ok(()))", (True, False), None),
+    ("self.parent.clear(color).unwrap(); Ok(())", (False, False), None),
+    ("Ok(())", None, "where the parent call was expected"),
+    ("self.parent.clear(color)?; self.parent.clear(color)", None, "second parent call"),
+    ("drop(self.parent.clear(color)); Ok(())", None, "where the parent call was expected"),
+    ("match self.parent.clear(color) { Ok(()) => Ok(()), Err(e) => Err(e) }", None, "where the parent call was expected"),
+    ("let f = || self.parent.clear(color); f()", None, "where the parent call was expected"),
+    ("if self.offset == self.offset { return Ok(()); } self.parent.clear(color)", None, "statement-position `if`"),
+    ("for _k in 0..2 { self.parent.clear(color)?; } Ok(())", None, "`for`"),
+    ("DrawTarget::clear(self.parent, color)", None, "where the parent call was expected"),
+    ("let b = self.parent.bounding_box(); self.parent.fill_solid(&b, color)", (True, True), None),
+    ("let b = self.parent.clear(color).is_ok(); self.parent.clear(color)", None, "second parent call"),
+]
+SHAPE_SRC = """
+pub struct Translated<'a, T> where T: DrawTarget { parent: &'a mut T, offset: Point }
+impl<T> DrawTarget for Translated<'_, T> where T: DrawTarget {
+    type Color = T::Color;
+    type Error = T::Error;
+    fn clear(&mut self, color: Self::Color) -> Result<(), Self::Error> { BODY }
+}
+"""
+
+
+def selftest():
+    problems = []
+    for (body, want, frag) in SHAPE_CASES:
+        try:
+            src = Src()
+            scan_items(Cursor(tokenize(strip_comments(SHAPE_SRC.replace("BODY", body), "selftest"), "selftest")), src,
+                       "translated", "selftest")
+            tr = AdaptTranslator(src)
+            tr.need("translated", "Translated", "DrawTarget", "clear", "Translated", "Translated_clear", "selftest", kind="result")
+            got = (tr.shapes[-1][4], tr.shapes[-1][5])
+            if want is None:
+                problems.append(f"`{body}` was ACCEPTED with shape {got} but must be refused")
+            elif got != want:
+                problems.append(f"`{body}`: shape (tail, bare) = {got}, expected {want}")
+        except TrError as ex:
+            if want is not None:
+                problems.append(f"`{body}` refused: {ex}")
+            elif frag not in str(ex):
+                problems.append(f"`{body}` refused with an unexpected message: {ex}")
+    return problems
+
+
 def generate(repo):
     try:
+        problems = selftest()
+        if problems:
+            raise TrError("shape-check self test failed: " + "; ".join(problems[:3]))
         text, info = translate(repo)
+        info["shape_selftest_cases"] = len(SHAPE_CASES)
         return {"AdaptSrc.lean": text}, info
     except TrError as ex:
         reason = str(ex)
@@ -1273,7 +1336,11 @@ if __name__ == "__main__":
     import json
     import sys
     repo = os.environ.get("EG_REPO", "/repo")
-    if len(sys.argv) > 1 and sys.argv[1] == "--strict":
+    if len(sys.argv) > 1 and sys.argv[1] == "--selftest":
+        ps = selftest()
+        print("\n".join(ps) if ps else f"selftest: {len(SHAPE_CASES)} shape cases fine")
+        sys.exit(1 if ps else 0)
+    elif len(sys.argv) > 1 and sys.argv[1] == "--strict":
         t, i = translate(repo)
         print(t)
     else:
